@@ -41,6 +41,7 @@ from .. import q
 from .. import x_cast as C
 from ..cfg import canon_fact
 from ..model import AnalysisError
+from .. import x_wsnorm as NORM
 from ..mutate import mutate, remove_stmts, replace_expr, replace_stmt, parse_stmt, parse_expr, MutantNotApplicable
 
 TECHNIQUE = "abstract interpretation of the clang AST (pointer/length congruence domain + symbolic byte lanes under both endiannesses); AST rules on the Python reference and the selection logic"
@@ -626,6 +627,8 @@ def _c_ast(repo):
 
 
 def run(ck):
+    ck.repo = NORM.normalize(ck.repo, W, NORM.KEEP_WS)  # aliases, temporaries, 1-tuple unpacks, single-use private helpers (vt/x_wsnorm.py)
+    ck.repo = NORM.normalize(ck.repo, U, NORM.KEEP_WS)
     ck.rule("C18.export", "speedups.c exports websocket_mask (the name util.py imports) bound to the analysed function")
     ck.rule("C18.args", "arguments are (mask, mask_len, data, data_len) from one PyArg_ParseTuple call whose failure returns NULL")
     ck.rule("C18.mask-len", "exactly the mask lengths != 4 are rejected (ValueError, NULL) and the mask buffer is not read before that test")
